@@ -40,8 +40,9 @@ BUDGET = {"quick": 60, "thorough": 1200}
 MIN = 20
 
 NON = ["alpha", "Beta", "it", "a", "I", "word", "longerword", "x", "42", "of", "to", "Supercalifragilistic", "THE", "U.S", "v1", "cat,", "dog;",
-       "(paren", "OK.", "A.", "3.x", "e.g.", "i.e.", "No.3", "X!", "naïve", "Ünï", "end.x", "what?!x", "ÉCOLE."]
-END = ["end.", "done!", "really?", "stop.)", "finished.", "ok.", "no.", 'said."', "voilà.", "tête?", "fin.’", "ja!”", "über.", '(so).', "go!'"]
+       "(paren", "OK.", "A.", "3.x", "e.g.", "i.e.", "No.3", "X!", "naïve", "Ünï", "end.x", "what?!x", "ÉCOLE.", "КОНЕЦ.", "Я.", "ŁÓDŹ."]
+END = ["end.", "done!", "really?", "stop.)", "finished.", "ok.", "no.", 'said."', "voilà.", "tête?", "fin.’", "ja!”", "über.", '(so).', "go!'",
+       "конец.", "żółć.", "τέλος.", "dům?", "mąż!", "это.”"]
 
 # independent re-statement of the documented heuristic, used only to validate the pools
 _LETTER = r"[^\W\d_]"
@@ -100,6 +101,34 @@ def _render_doc(sents: list[list[str]], width: int, ii: str, si: str, layout: li
         ind = ii if i == 0 else si
         if not l.startswith(ind):
             raise _Odd(f"document line {i} {l!r} lacks container prefix {ind!r}: {out!r}")
+        bodies.append(l[len(ind):])
+    return lines, bodies
+
+
+def _render_doc2(sents, width, ii, si):
+    """One document holding the same paragraph twice: at top level (a short lead-in shifts its first column) and in the
+    given container. Returns the container copy, after checking the top-level copy's word sequence (intra-call state
+    such as a memo keyed on too little would make the two copies influence each other)."""
+    from flowmark import reformat_text
+
+    words = [w for s in sents for w in s]
+    text = " ".join(words)
+    src = text + "\n\n" + ii + text + "\n"
+    out = reformat_text(src, width=width, semantic=True, cleanups=False)
+    parts = out[:-1].split("\n\n")
+    if len(parts) != 2:
+        raise _Odd(f"expected two blocks, got {len(parts)}: {out!r}")
+    if " ".join(parts[0].split()) != text:
+        raise _Odd(f"top-level copy changed: {parts[0]!r}")
+    alone = reformat_text(ii + text + "\n", width=width, semantic=True, cleanups=False)[:-1]
+    if parts[1] != alone:
+        raise _Odd(f"the paragraph in its container is formatted differently when the same paragraph precedes it at top level:\n together: {parts[1]!r}\n alone   : {alone!r}")
+    lines = parts[1].split("\n")
+    bodies = []
+    for i, l in enumerate(lines):
+        ind = ii if i == 0 else si
+        if not l.startswith(ind):
+            raise _Odd(f"document line {i} {l!r} lacks container prefix {ind!r}")
         bodies.append(l[len(ind):])
     return lines, bodies
 
@@ -170,6 +199,8 @@ def check_case(case: dict, note: Note) -> Failure | None:
     layout = case.get("layout", [])
 
     def render(ss):
+        if level == "doc2":
+            return _render_doc2(ss, width, ii, si)
         return _render_fn(ss, width, ii, si) if level == "fn" else _render_doc(ss, width, ii, si, layout)
 
     body_words = sents[k][:-1]
@@ -236,7 +267,7 @@ def _sentence():
 @st.composite
 def _case(draw, level: str):
     sents = draw(st.lists(_sentence(), min_size=2, max_size=7))
-    ii, si = draw(st.sampled_from(INDENTS if level == "fn" else INDENTS[:4]))
+    ii, si = draw(st.sampled_from(INDENTS if level == "fn" else (INDENTS[1:4] if level == "doc2" else INDENTS[:4])))
     width = draw(st.one_of(st.integers(20, 120), st.integers(20, 60), st.integers(5, 19), st.sampled_from([88, 80, 72, 40])))
     case = {
         "level": level,
@@ -256,3 +287,4 @@ def _case(draw, level: str):
 def shard_work(ctx: Ctx) -> None:
     ctx.run_hypothesis("function_level", _case("fn"), ctx.n(20000, 800000))
     ctx.run_hypothesis("document_level", _case("doc"), ctx.n(6000, 250000))
+    ctx.run_hypothesis("same_paragraph_twice_in_one_document", _case("doc2"), ctx.n(4000, 150000))
